@@ -36,7 +36,7 @@ ASSUMPTIONS = [
     "'a broken server is never asked again' is scoped to one candidate name; the back-off sleep may overshoot the lifetime by at most 2 s",
     "dns.resolver.time / dns.asyncresolver.time are a virtual clock; responses are rendered to wire and parsed back before they are returned",
 ]
-REQUIRED = ["mon.sync_vs_reference", "mon.async_vs_sync", "mon.log_invariants", "mon.cache_contents", "mon.exhaustive_scripts"]
+REQUIRED = ["mon.resolve_name", "mon.sync_vs_reference", "mon.async_vs_sync", "mon.log_invariants", "mon.cache_contents", "mon.exhaustive_scripts"]
 BUDGET = {"quick": 45.0, "thorough": 480.0}
 
 KINDS = ["answer", "nodata", "nxdomain", "servfail", "refused", "timeout", "malformed", "truncated", "yxdomain", "oserror", "eoferror", "notimp", "chain-too-long", "answer-for-nxdomain", "cname1", "cname3", "cname-nodata", "cname-nxdomain"]
@@ -492,6 +492,81 @@ def gen_outcomes(rng):
     return out
 
 
+def check_resolve_name(ctx, rng, is_async):
+    """resolve_name(): an AAAA resolution then an A resolution of the same name, sharing ONE lifetime.  The reference is the
+    decision procedure applied twice, the second time with what is left of the lifetime."""
+    ctx.count("evaluations")
+    ctx.count("mon.resolve_name")
+    cfg = gen_cfg(rng)
+    cfg.update(cache=None, preseed={}, search=False, absolute=True, raise_on_no_answer=False, rdclass="IN")
+    cfg["qname"] = tuple(l for l in cfg["qname"] if l != b"") + (b"",)
+    cfg["lifetime"] = rng.choice((2.0, 5.0, 10.0, 30.0))
+    outcomes = [(rng.choice(("timeout", "timeout", "servfail", "answer", "answer", "nodata", "nxdomain", "truncated", "malformed", "refused")),
+                 {"ttl": 300, "rtt": rng.choice((0.0, 0.01, 0.2)), "soa": True, "soa_ttl": 500, "minimum": 77, "cname_ttls": [60, 60, 60], "links": 1}) for _ in range(rng.randint(0, 14))]
+    case = {"kind": "resolve_name", "async": is_async, "cfg": {k: (str(v) if not isinstance(v, (int, float, bool, type(None), str)) else v) for k, v in cfg.items()}, "outcomes": [o[0] for o in outcomes]}
+    # reference
+    cfg6 = dict(cfg, rdtype="AAAA")
+    log6, res6, _p, end6 = reference(cfg6, outcomes)
+    want_log, want = list(log6), None
+    if res6[0] in ("answer", "nodata"):
+        left = cfg["lifetime"] - (end6 - cfg["start"])
+        if left <= 0:
+            want = ("LifetimeTimeout",)
+        else:
+            cfg4 = dict(cfg, rdtype="A", start=end6, lifetime=left)
+            log4, res4, _p, end4 = reference(cfg4, outcomes[len(log6):])
+            want_log += log4
+            if res4[0] in ("answer", "nodata"):
+                want = ("host-answers", res6[0] == "answer", res4[0] == "answer")
+            else:
+                want = (res4[0],)
+    else:
+        want = (res6[0],)
+    # library
+    clock = Clock(cfg["start"])
+    script = Script(outcomes, clock)
+    got = None
+    try:
+        with swap_attr(dns.resolver, "time", clock), swap_attr(dns.asyncresolver, "time", clock):
+            res = make_resolver(dns.asyncresolver.Resolver if is_async else dns.resolver.Resolver, cfg, script, clock)
+            q = dns.name.Name(cfg["qname"])
+            try:
+                if is_async:
+                    backend = FakeBackend(clock)
+                    loop = asyncio.new_event_loop()
+                    try:
+                        ha = loop.run_until_complete(res.resolve_name(q, lifetime=cfg["lifetime"], tcp=cfg["tcp"], raise_on_no_answer=False, backend=backend))
+                    finally:
+                        loop.close()
+                else:
+                    ha = res.resolve_name(q, lifetime=cfg["lifetime"], tcp=cfg["tcp"], raise_on_no_answer=False)
+                got = ("host-answers", ha.get(dns.rdatatype.AAAA) is not None and ha[dns.rdatatype.AAAA].rrset is not None, ha.get(dns.rdatatype.A) is not None and ha[dns.rdatatype.A].rrset is not None)
+            except dns.resolver.NXDOMAIN:
+                got = ("NXDOMAIN",)
+            except dns.resolver.YXDOMAIN:
+                got = ("YXDOMAIN",)
+            except dns.resolver.NoNameservers:
+                got = ("NoNameservers",)
+            except dns.resolver.LifetimeTimeout:
+                got = ("LifetimeTimeout",)
+            except dns.resolver.NoAnswer:
+                got = ("NoAnswer",)
+    except Exception as e:
+        ctx.violation("resolve_name-raised-unexpected:" + core.exc_sig(e), repr(e), case)
+        return
+    mode = "async" if is_async else "sync"
+    ctx.seen(("resolve_name", mode, got[0], want[0], min(len(script.log), 6)))
+    if script.log != want_log:
+        i = next((k for k in range(min(len(script.log), len(want_log))) if script.log[k] != want_log[k]), min(len(script.log), len(want_log)))
+        a = script.log[i] if i < len(script.log) else None
+        b = want_log[i] if i < len(want_log) else None
+        what = "extra-query" if b is None else "missing-query" if a is None else "timeout-offered" if a[3] != b[3] else "other"
+        ctx.violation(f"resolve_name-query-log-differs-from-reference:{mode}:{what}", f"query {i}: library {a} reference {b}; outcome library {got} reference {want}", case)
+        return
+    if got[0] != want[0] or (got[0] == "host-answers" and got != want):
+        ctx.violation(f"resolve_name-outcome-differs-from-reference:{mode}:{got[0]}-vs-{want[0]}", f"library {got} reference {want}", case)
+
+
 def check_case(ctx, cfg, outcomes, tag):
     ctx.count("evaluations")
     case = {"kind": "script", "cfg": {k: (str(v) if not isinstance(v, (int, float, bool, type(None), str)) else v) for k, v in cfg.items()}, "outcomes": [o[0] for o in outcomes][:40], "params": [o[1] for o in outcomes][:12]}
@@ -581,6 +656,8 @@ def run(spec, ctx):
         cfg = gen_cfg(rng)
         outcomes = gen_outcomes(rng)
         check_case(ctx, cfg, outcomes, "random")
+        if i % 8 == 0:
+            check_resolve_name(ctx, rng, is_async=(i % 16 == 8))
         if i < 1:
             ctx.sample({"outcomes": [o[0] for o in outcomes], "nservers": cfg["nservers"], "search_list": [dns.name.Name(s).to_text() for s in cfg["search_list"]], "qname": dns.name.Name(cfg["qname"]).to_text()})
     # exhaustive: 2 servers x all scripts of length <= L over 8 outcome kinds
